@@ -384,6 +384,7 @@ def run(chk, S: Session):
     _run_own(chk, S)
     from ..harness import borrow
 
-    rb = chk.rule("R-C14-B", "clauses of this statement decided by rules of C07 (error norms the adaptive runs of all models share) and C11 (observation damping of every linearisation)", floor=6)
+    rb = chk.rule("R-C14-B", "clauses of this statement decided by rules of C07 (error norms the adaptive runs of all models share), C11 (observation damping of every linearisation) and C08 (every model hands the caller's solve to the reversal kernel)", floor=6)
     borrow(chk, S, rb, "C07", lambda r, c: r == "R-C07-5")
     borrow(chk, S, rb, "C11", lambda r, c: r == "R-C11-5" and "damping" in c)
+    borrow(chk, S, rb, "C08", lambda r, c: r == "R-C08-5" and "hands its solve to the kernel" in c)
